@@ -56,8 +56,10 @@ impl<'de> serde::de::Deserializer<'de> for KeyDeserializer {
     {
         if serde_spanned::__unstable::is_spanned(name, fields) {
             if let Some(span) = self.span.clone() {
+                // The wrapped type is handed this deserializer itself, so that it decodes exactly as it
+                // does without the `Spanned` wrapper (newtype structs, enums)
                 return visitor
-                    .visit_map(super::SpannedDeserializer::new(self.key.get(), span.clone()))
+                    .visit_map(super::SpannedDeserializer::new(self, span.clone()))
                     .map_err(|mut e: Self::Error| {
                         if e.span().is_none() {
                             e.set_span(Some(span));
